@@ -28,7 +28,18 @@ RULE = ("charts arrive through ordinary histories that leave non-default row lab
         "(coinciding with tempo points / each other, before the first tempo point, after the last note), notes and holds "
         "(first note at or after the first tempo point, sometimes exactly on tempo points), five games, override "
         "absent / positive / 0; times and multipliers dyadic and tempos from the exactly representable set (so ties "
-        "between totals are exact) or arbitrary doubles; claims dominant / speed / normalize; non-trivial = at least two "
+        "between totals are exact) or arbitrary doubles; claims dominant / speed / normalize; 30 % of the cases are "
+        "SESSIONS on one chart object: 2-4 calls (any mix of the three routines, override absent / positive / 0, on the "
+        "object itself or on a deepcopy) with an edit between consecutive calls - shift / whole-column assignment / "
+        "append / trim / replace on the note, tempo or SV list through every editing route (list property column "
+        "assignment in place, iloc / loc / TimedList.__setitem__, a new frame on the same list, a new list object, the "
+        "Stacker, append / append(sort=True) / concat, before()/after()), favouring edits that move the first / last "
+        "object or change the tempo list; EVERY call is judged by the Lean specification against the chart's content at "
+        "that moment, read back through the plain list API, first / last object from the Lean Chart.bounds; 10 % are "
+        "boundary charts with a UNIQUE maximal bpm decided by one section (often the last) with margins down to 1/8 ms: "
+        "last / first object at exactly 0 (0.0 and -0.0), tempo points entirely negative, a tempo point at 0, one tempo "
+        "point, the last object ON a tempo point, and tie charts turned into near misses; the search stream "
+        "(gen_search) consists of these boundary / near-miss charts and sessions only; non-trivial = at least two "
         "distinct bpm values, or an SV that is in force at some breakpoint")
 ASSUMPTIONS = [
     "`last object` / `first object` of the statement are read as m.stack().offset.max()/min(), which range over notes, "
@@ -36,8 +47,11 @@ ASSUMPTIONS = [
     "tempo/SV point",
     "pandas sort_values(kind='stable') is modelled as a stable insertion sort (the `kind` arguments are read by the "
     "translator; before the fix of D28 the default unstable sort decided ties at the last offset)",
-    "the hypothesis `no SV before the first stacked offset` of scroll_speed_spec holds by construction (the first "
-    "stacked offset is the minimum over notes, tempo points and SVs)",
+    "first / last object are Chart.bounds of the Lean model (theorem chart_bounds_cover: they satisfy the hypotheses "
+    "`last at or after every tempo point` / `no SV before the first stacked offset` of the routine-level theorems); "
+    "the implementation's m.stack().offset.min()/max() is compared with them on every call",
+    "an edit between two calls of a session is any function of the chart (theorem session_spec); the harness realises "
+    "edits through the public list / Stacker API and reads the resulting content back, it does not model the edit",
     "coinciding SVs: the specification accepts any of them, the model takes the last in row order as the code does",
 ]
 TRUSTED_EXTRA = ["pandas groupby/merge/ffill/bfill/drop_duplicates/idxmax are modelled as list operations (Model/Analysis.lean)"]
